@@ -3380,6 +3380,24 @@ def run_memfs_single(ctx, prop, ops, nmax, n2max, cwds=("/", "/a"), tag="mem_sin
                         ob.prove(ex, st, desc + " (after %s, cwd %s)" % (op, cwd), f, cf) or ob.failures[-1].update(op=op, cwd=cwd, where="Memfs::" + op)
                     rv = last[1]
                     failed = isinstance(rv, Adt) and rv.ty == "Result" and rv.variant == 1
+                    if op in REF_OPS:
+                        # C01, first sentence, for one call: result and resulting tree equal the reference filesystem
+                        pa = abs_oracle(ex, st, groups["arg0"], T_(cwd), run.tenv)
+                        if pa[0] == "err":
+                            ob.prove(ex, st, "C01: %s on a path that does not resolve (%s) fails (cwd %s)" % (op, pa[1], cwd), B(failed), cf) or \
+                                ob.failures[-1].update(op=op, cwd=cwd, where="Memfs::" + op)
+                        elif pa[0] == "ok":
+                            ref = ref_from_snapshot(ex, st, st.meta["before"])
+                            out, rpath = ref_apply(ex, st, ref, op, [pa[1]], groups.get("data1"))
+                            if out != "skip":
+                                ob.prove(ex, st, "C01: %s succeeds/fails as the reference filesystem does (cwd %s)" % (op, cwd),
+                                         B(failed == (out == "err")), cf) or ob.failures[-1].update(op=op, cwd=cwd, where="Memfs::" + op)
+                                if out == "ok" and not failed:
+                                    ob.prove(ex, st, "C01: the tree after %s equals the reference filesystem's (cwd %s)" % (op, cwd),
+                                             ref_matches(ex, st, ref, after), cf) or ob.failures[-1].update(op=op, cwd=cwd, where="Memfs::" + op)
+                                    if rpath is not None and isinstance(rv, Adt) and rv.variant == 0 and isinstance(rv.fields[0], TP.PathBufT):
+                                        ob.prove(ex, st, "C01: %s returns the absolute path it acted on (cwd %s)" % (op, cwd),
+                                                 text_eq(rv.fields[0].chars, rpath), cf) or ob.failures[-1].update(op=op, cwd=cwd, where="Memfs::" + op)
                     if atomic and failed:
                         ob.prove(ex, st, "C01: a failed %s leaves the tree exactly as it was (cwd %s)" % (op, cwd),
                                  store_same(ex, st, st.meta["before"], after), cf) or ob.failures[-1].update(op=op, cwd=cwd, where="Memfs::" + op)
@@ -3444,7 +3462,92 @@ fn fixture() -> Memfs {
     v.write_all("/b", "yz").unwrap();
     v
 }
+
+// A plain reference tree filesystem written from the VirtualFileSystem documentation (std only, no rivia code).
+// None = directory, Some(bytes) = regular file; paths without '~' and '$' only.
+#[derive(Clone)]
+struct RefFs { nodes: std::collections::BTreeMap<String, Option<String>>, cwd: String }
+impl RefFs {
+    fn fixture(cwd: &str) -> RefFs {
+        let mut nodes = std::collections::BTreeMap::new();
+        nodes.insert("/".to_string(), None);
+        nodes.insert("/a".to_string(), None);
+        nodes.insert("/a/b".to_string(), Some("x".to_string()));
+        nodes.insert("/b".to_string(), Some("yz".to_string()));
+        RefFs { nodes, cwd: cwd.to_string() }
+    }
+    fn resolve(&self, p: &str) -> Option<String> {
+        if p.is_empty() { return None; }
+        let full = if p.starts_with('/') { p.to_string() } else { format!("{}/{}", self.cwd, p) };
+        let mut st: Vec<&str> = vec![];
+        for c in full.split('/') {
+            match c { "" | "." => {}, ".." => { st.pop(); }, x => st.push(x) }
+        }
+        Some(format!("/{}", st.join("/")))
+    }
+    fn parent(p: &str) -> String { match p.rfind('/') { Some(0) | None => "/".to_string(), Some(i) => p[..i].to_string() } }
+    fn parent_is_dir(&self, p: &str) -> bool { self.nodes.get(&Self::parent(p)) == Some(&None) }
+    fn has_children(&self, p: &str) -> bool { self.nodes.keys().any(|k| k != p && Self::parent(k) == p && k != "/") }
+    // Ok(true) = succeeded, Ok(false) = failed, Err = outside what the documentation determines
+    fn apply(&mut self, op: &str, path: &str, data: &str) -> Result<bool, ()> {
+        let p = match self.resolve(path) { Some(p) => p, None => return Ok(false) };
+        let node = self.nodes.get(&p).cloned();
+        match op {
+            "mkfile" | "write_all" | "append_all" => {
+                match node {
+                    Some(None) => if p == "/" { Err(()) } else { Ok(false) },
+                    Some(Some(old)) => {
+                        if op == "write_all" { self.nodes.insert(p, Some(data.to_string())); }
+                        else if op == "append_all" { self.nodes.insert(p, Some(old + data)); }
+                        Ok(true)
+                    }
+                    None => {
+                        if !self.parent_is_dir(&p) { return Ok(false); }
+                        self.nodes.insert(p, Some(if op == "mkfile" { String::new() } else { data.to_string() }));
+                        Ok(true)
+                    }
+                }
+            }
+            "mkdir_p" => {
+                let mut cur = String::new();
+                let mut made = vec![];
+                for c in p.split('/').filter(|c| !c.is_empty()) {
+                    cur = format!("{}/{}", cur, c);
+                    match self.nodes.get(&cur) { None => made.push(cur.clone()), Some(None) => {}, Some(Some(_)) => return Ok(false) }
+                }
+                for m in made { self.nodes.insert(m, None); }
+                Ok(true)
+            }
+            "remove" => {
+                if node.is_none() { return Ok(true); }
+                if p == "/" { return Err(()); }
+                if node == Some(None) && self.has_children(&p) { return Ok(false); }
+                self.nodes.remove(&p);
+                Ok(true)
+            }
+            "remove_all" => {
+                if p == "/" { return Err(()); }
+                let pre = format!("{}/", p);
+                self.nodes.retain(|k, _| k != &p && !k.starts_with(&pre));
+                Ok(true)
+            }
+            "set_cwd" => { if node.is_none() { return Ok(false); } self.cwd = p; Ok(true) }
+            _ => Err(()),
+        }
+    }
+    fn dump(&self) -> String {
+        let mut out = String::new();
+        for (k, n) in &self.nodes {
+            let (kind, mode) = match n { None => ("dir".to_string(), 0o40755), Some(d) => (format!("file{:?}", Some(d)), 0o100644) };
+            out += &format!("{:?} {} {:o} {:?}\n", std::path::PathBuf::from(k), kind, mode, Some((1000u32, 1000u32)));
+        }
+        out + &format!("cwd={:?}", Some(std::path::PathBuf::from(&self.cwd)))
+    }
+}
 '''
+
+
+REF_OPS = ("mkfile", "mkdir_p", "write_all", "append_all", "remove", "remove_all", "set_cwd")
 
 
 def mem_replay_src(f):
@@ -3459,6 +3562,16 @@ def mem_replay_src(f):
         else:
             args.append("0o644")
     call = "v.%s(%s)" % (op, ", ".join(args))
+    refcheck = ""
+    if op in REF_OPS and not any(c in a["arg0"] for c in "~$"):
+        refcheck = '''    let mut r = RefFs::fixture(%s);
+    if let Ok(ok) = r.apply(%s, %s, %s) {
+        assert_eq!(!failed, ok, "C01: %s succeeds/fails differently from the reference filesystem");
+        if ok {
+            assert_eq!(dump(&v), r.dump(), "C01: the tree after %s differs from the reference filesystem's");
+        }
+    }
+''' % (rs_str(cwd), rs_str(op), rs_str(a["arg0"]), rs_str(a.get("data1", "")), op, op)
     return MEM_REPLAY_PRELUDE + '''
 #[test]
 fn replay_memfs_op() {
@@ -3482,8 +3595,8 @@ fn replay_memfs_op() {
     if failed && %s {
         assert_eq!(dump(&v), before, "C01: failed %s changed the tree");
     }
-}
-''' % (f["desc"], rs_str(cwd), call, op, "true" if MEM_OPS[op][1] else "false", op)
+%s}
+''' % (f["desc"], rs_str(cwd), call, op, "true" if MEM_OPS[op][1] else "false", op, refcheck)
 
 
 MEM_FUNCS = ["Memfs::{%s} and everything they call, executed from MIR (auto-inlined rivia code): _abs, _add, _mkdir_m, _symlink, MemfsGuard::*, "
@@ -4161,3 +4274,130 @@ def c04_two_calls(ctx, prop):
         ("removeall;mkdir||mkfile", [["removeall_a", "mkdir_de"], ["mkfile_n"]]),
     ]
     return run_concurrent(ctx, prop, progs, tag="c04_two_calls")
+
+
+# ------------------------------------------------------------------------------------------------
+# C01 (first sentence, single calls): a plain reference tree filesystem written from the trait docs
+# ------------------------------------------------------------------------------------------------
+def ref_from_snapshot(ex, st, s):
+    """reference state: [{key, kind 'd'|'f', content|None, mode, uid, gid}] + cwd (links are not in the fixture)"""
+    nodes = []
+    for e in s["entries"]:
+        kind = "d" if ex.decide(st, e["dir"]) else "f"
+        content = None
+        if kind == "f":
+            f = find_key(ex, st, s["files"], e["key"])
+            content = list(f["data"]) if f else []
+        nodes.append(dict(key=list(e["key"]), kind=kind, content=content, mode=e["mode"], uid=e["uid"], gid=e["gid"]))
+    return dict(nodes=nodes, cwd=list(s["cwd"]))
+
+
+def ref_find(ex, st, ref, key):
+    for n in ref["nodes"]:
+        if ex.decide(st, TP.path_eq_text(ex, st, n["key"], key)):
+            return n
+    return None
+
+
+def ref_children(ex, st, ref, key):
+    out = []
+    for n in ref["nodes"]:
+        p = TP.parent_text(ex, st, n["key"])
+        if p is not None and ex.decide(st, TP.path_eq_text(ex, st, p, key)):
+            out.append(n)
+    return out
+
+
+def ref_apply(ex, st, ref, op, paths, data):
+    """returns (outcome 'ok'|'err'|'skip', returned path text or None); mutates ref on success"""
+    p = paths[0]
+    is_root = len(TP.tokenize(ex, st, p)) == 1
+    node = ref_find(ex, st, ref, p)
+    newfile = lambda content: dict(key=list(p), kind="f", content=content, mode=BV(32, False, 0o100644), uid=BV(32, False, 1000), gid=BV(32, False, 1000))
+
+    def parent_ok():
+        par = TP.parent_text(ex, st, p)
+        pn = ref_find(ex, st, ref, par) if par is not None else None
+        return pn is not None and pn["kind"] == "d"
+
+    if op == "mkfile":
+        if node is not None:
+            if node["kind"] != "f":
+                return ("skip", None) if is_root else ("err", None)
+            return ("ok", p)
+        if not parent_ok():
+            return ("err", None)
+        ref["nodes"].append(newfile([]))
+        return ("ok", p)
+    if op in ("write_all", "append_all"):
+        d = [BV(8, False, c.v) if c.concrete else BV(8, False, "((_ extract 7 0) %s)" % c.smt()) for c in data]
+        if node is not None:
+            if node["kind"] != "f":
+                return ("skip", None) if is_root else ("err", None)
+            node["content"] = (node["content"] + d) if op == "append_all" else d
+            return ("ok", None)
+        if not parent_ok():
+            return ("err", None)
+        ref["nodes"].append(newfile(d))
+        return ("ok", None)
+    if op == "mkdir_p":
+        toks = TP.tokenize(ex, st, p)
+        cur = TP.PathBufT([])
+        made = []
+        for t in toks:
+            TP.push_text(ex, st, cur, t[0].text)
+            n = ref_find(ex, st, ref, cur.chars)
+            if n is None:
+                made.append(dict(key=list(cur.chars), kind="d", content=None, mode=BV(32, False, 0o40755), uid=BV(32, False, 1000), gid=BV(32, False, 1000)))
+            elif n["kind"] != "d":
+                return ("err", None)
+        ref["nodes"] += made
+        return ("ok", p)
+    if op == "remove":
+        if node is None:
+            return ("ok", None)
+        if is_root:
+            return ("skip", None)
+        if node["kind"] == "d" and ref_children(ex, st, ref, p):
+            return ("err", None)
+        ref["nodes"].remove(node)
+        return ("ok", None)
+    if op == "remove_all":
+        if is_root:
+            return ("skip", None)
+        if node is None:
+            return ("ok", None)
+        keep = []
+        for n in ref["nodes"]:
+            tn, tp = TP.tokenize(ex, st, n["key"]), TP.tokenize(ex, st, p)
+            under = len(tn) >= len(tp) and all(ex.decide(st, TP.tcomp_eq(a[0], b[0])) for a, b in zip(tn[:len(tp)], tp))
+            if not under:
+                keep.append(n)
+        ref["nodes"] = keep
+        return ("ok", None)
+    if op == "set_cwd":
+        if node is None:
+            return ("err", None)
+        ref["cwd"] = list(p)
+        return ("ok", p)
+    return ("skip", None)
+
+
+def ref_matches(ex, st, ref, snap):
+    """B: the Memfs snapshot denotes exactly the reference tree"""
+    from .mirsym.values import bv_bin
+    if len(ref["nodes"]) != len(snap["entries"]):
+        return B(False)
+    conj = [TP.path_eq_text(ex, st, ref["cwd"], snap["cwd"])]
+    for n in ref["nodes"]:
+        e = find_key(ex, st, snap["entries"], n["key"])
+        if e is None:
+            return B(False)
+        conj += [e["dir"] if n["kind"] == "d" else b_not(e["dir"]), e["file"] if n["kind"] == "f" else b_not(e["file"]), b_not(e["link"]),
+                 bv_bin("Eq", e["mode"], n["mode"]), bv_bin("Eq", e["uid"], n["uid"]), bv_bin("Eq", e["gid"], n["gid"])]
+        if n["kind"] == "f":
+            f = find_key(ex, st, snap["files"], n["key"])
+            if f is None or len(f["data"]) != len(n["content"]):
+                return B(False)
+            conj += [bv_bin("Eq", a, b) for a, b in zip(f["data"], n["content"])]
+    return b_and(*conj)
